@@ -387,6 +387,11 @@ func (s *StateMachine) ApplyTransactions(ctx context.Context, txs [][]byte, r *l
 		}
 		r.Add(tx, txResultBz, result, events, oversize)
 	}
+	// the 'oversize' transactions ran against a throw-away store wrapper, but the state machine caches (accounts, pools,
+	// params, validators) still hold their effects: dump them so EndBlock doesn't write those effects into the real state
+	if oversize {
+		s.ResetCaches()
+	}
 	// update metrics
 	s.Metrics.UpdateLargestTxSize(r.LargestTx)
 	if s.Metrics != nil {
